@@ -22,6 +22,9 @@ type Blob struct {
 	Class string
 }
 
+// GoString keeps rapid's draw log short.
+func (b Blob) GoString() string { return b.String() }
+
 func (b Blob) String() string { return fmt.Sprintf("%s(%s,%dB)", b.Ref, b.Class, len(b.Data)) }
 
 // Noise expands seed into n deterministic pseudo-random bytes (xorshift64).
